@@ -190,7 +190,7 @@ def c12(tier):
     for n in (16, 17, 18):
         jobs.append((H('parser', 'HarnessC12Number'), P('parser'), None, {'params': {'form': 6, 'n': n}, 'label': 'number form=6 (long decimal) n=%d' % n, 'split_after': 30, 'job_timeout': 1500}))
     import random, itertools
-    NT = 12
+    NT = 16
     rnd = random.Random(SEED[0])
     layouts = [(a,) for a in range(NT)] + [(a, b) for a in range(NT) for b in range(NT)]
     triples = list(itertools.product(range(NT), repeat=3))
@@ -221,6 +221,8 @@ def c04(tier):
     jobs = []
     for n in range(0, 3 if q else 4):
         jobs.append((H('parser/lexer', 'HarnessC04Lex'), P('parser/lexer'), None, {'params': {'n': n}, 'label': 'lex n=%d' % n, 'split_after': 40, 'job_timeout': 3000}))
+    for n in range(1, 3 if q else 4):
+        jobs.append((H('parser/lexer', 'HarnessC04LexEscape'), P('parser/lexer'), None, {'params': {'n': n}, 'label': 'lex escape n=%d' % n, 'split_after': 40, 'job_timeout': 3000}))
     for n in range(0, 3 if q else 4):
         jobs.append((H('parser', 'HarnessC04Parse'), P('parser'), None, {'params': {'n': n}, 'label': 'parse bytes n=%d' % n, 'split_after': 40, 'job_timeout': 3000}))
     for k in range(1, 3 if q else 4):
@@ -231,11 +233,11 @@ def c04(tier):
     for src in srcs:
         jobs.append((H('.', 'HarnessC04Compile'), P('.'), None, {'params': {'src': src}, 'label': 'compile ' + src, 'split_after': 200, 'job_timeout': 3000}))
     meta = {
-        'explanation': 'a panic or non-termination is a path outcome of the symbolic executor: (1) Lex on a buffer of n fully SYMBOLIC bytes (valid and invalid UTF-8); (2) Parse on n symbolic bytes and on k symbolic choices from a 35-token alphabet; (3) expr.Compile on grammatical seeds (well- and ill-typed) under every combination of options chosen symbolically (Env struct/map/none, AllowUndefinedVariables, Optimize, AsBool/AsInt64/AsFloat64, Operator, ConstExpr, four node-replacing Patch visitors) followed by Run and Eval on an environment with nil members and a panicking function; asserted: no path ends in an uncaught panic, every loop finishes within the unwinding bound, error => nil program/value, no error => usable program',
+        'explanation': 'a panic or non-termination is a path outcome of the symbolic executor: (1) Lex on a buffer of n fully SYMBOLIC bytes (valid and invalid UTF-8), and on quoted literals whose body is a backslash followed by up to 2-3 symbolic bytes (every complete and truncated escape, terminated or not); (2) Parse on n symbolic bytes and on k symbolic choices from a 35-token alphabet; (3) expr.Compile on grammatical seeds (well- and ill-typed) under every combination of options chosen symbolically (Env struct/map/none, AllowUndefinedVariables, Optimize, AsBool/AsInt64/AsFloat64, Operator, ConstExpr, four node-replacing Patch visitors) followed by Run and Eval on an environment with nil members and a panicking function; asserted: no path ends in an uncaught panic, every loop finishes within the unwinding bound, error => nil program/value, no error => usable program',
         'bounds': {'lexer bytes': '<= %d' % (2 if q else 3), 'parser bytes': '<= %d' % (2 if q else 3), 'parser tokens': '<= %d of 35' % (2 if q else 3), 'seeds': len(srcs), 'option combinations': 'all (3 env x 2 x 2 x 4 x 2 x 2 x 5)'},
         'outside': ['inputs longer than the bound (64 KiB is far outside)', 'stack exhaustion on deep nesting', 'time complexity'],
         'assumptions': COMMON_ASSUME,
-        'must_reach': ['c04.lex.returned', 'c04.parse.returned', 'c04.parsetokens.returned', 'c04.compile.returned', 'c04.run.returned'],
+        'must_reach': ['c04.lex.returned', 'c04.lexescape.returned', 'c04.parse.returned', 'c04.parsetokens.returned', 'c04.compile.returned', 'c04.run.returned'],
     }
     return jobs, meta
 
